@@ -15,25 +15,54 @@ Theorem C32_no_shared_writes_child :
 Proof. exact (fun grow r h ops => child_writes_only_own_cells grow r h true ops). Qed.
 Print Assumptions C32_no_shared_writes_child.
 
-(* The thread that goes on in the parent Runner (after `&`, the last pipeline stage,
-   the caller of Runner.Subshell): Pa/Po mark the cells only it can reach — its own
-   overlay chain, Funcs, alias, dirStack array.  Whatever it runs, it stores only into
-   those and into cells it allocates afterwards: every other existing cell, in
-   particular every array and map a variable points to (which the child's shallow
-   copies share), keeps its contents.
-   PARTIAL: thread-modular; the interleaved execution of both threads is not modelled
-   (it needs the additional invariant that a Runner holds no pointer to a cell
-   allocated by the other thread), and reads are not tracked. *)
-Theorem C32_no_shared_writes_parent_partial :
-  forall grow (Pa Po : loc -> Prop) r h ops,
-    let owna := fun l => Pa l \/ length (ha h) <= l in
-    let owno := fun l => Po l \/ length (ho h) <= l in
-    rinv owna owno r -> fs_closed owno h ->
-    let g := st_h (run_ops grow ops (mkSt r h false)) in
-    (forall l, l < length (ha h) -> ~ Pa l -> nth_error (ha g) l = nth_error (ha h) l) /\
-    (forall l, l < length (ho h) -> ~ Po l -> nth_error (ho g) l = nth_error (ho h) l).
-Proof. exact parent_writes_only_own_cells. Qed.
-Print Assumptions C32_no_shared_writes_parent_partial.
+(* Two threads, ANY interleaving.  After Runner.subshell(true) the parent Runner and the
+   copy take steps in an arbitrary order (list of (thread, operation)) on the shared heaps.
+   ta/to classify the cells that exist at the fork: TParent = the parent's private roots
+   (its overlay chain, Funcs, alias, dirStack array: any classification for which the
+   parent's invariant tinv holds), TShared = everything else (all arrays and maps that
+   variables point to, which the copy shares).  Cells allocated later are tagged with the
+   thread that allocated them.  Then, for every schedule:
+   - all_ok: every step of a thread leaves every existing cell NOT tagged with that thread
+     unchanged (it writes neither a shared cell nor a cell of the other thread);
+   - cinv holds of every reachable configuration: every pointer a Runner stores through
+     (overlay chain, Funcs, alias, dirStack, saved scopes) is to an allocated cell tagged with
+     its own thread, i.e. there is no pointer from one thread's roots into cells of the
+     other, and no dangling one;
+   - shared cells keep the contents they had at the fork.
+   Not covered: pointers held INSIDE variables (slices, maps) are not tracked, so "thread u
+   never READS a cell tagged t" is proved only for the root pointers; the Go memory model
+   is not modelled. *)
+Theorem C32_no_shared_writes :
+  forall grow r h ta to (evs : list (bool * op)),
+    length ta = length (ha h) -> length to = length (ho h) ->
+    tinv TParent ta to r h -> (forall l, nth l to TShared <> TChild) ->
+    all_ok grow evs (fork_conf grow r h ta to) /\
+    cinv (run_sched grow evs (fork_conf grow r h ta to)) /\
+    (forall l, l < length ta -> nth l ta TShared = TShared ->
+       nth_error (ha (cf_h (run_sched grow evs (fork_conf grow r h ta to)))) l = nth_error (ha h) l) /\
+    (forall l, l < length to -> nth l to TShared = TShared ->
+       nth_error (ho (cf_h (run_sched grow evs (fork_conf grow r h ta to)))) l = nth_error (ho h) l).
+Proof. exact no_shared_writes_interleaved. Qed.
+Print Assumptions C32_no_shared_writes.
+
+(* The copy's observation is unaffected by whatever the parent does after the fork.
+   Hypotheses closedP/okR: what the copy can reach (its Runner, the cells not tagged TParent)
+   stores no pointer to a parent-private cell.  They are decidable facts about the fork
+   state; that they hold for every reachable fork state (pointer closure of variables) is
+   NOT proved here -- the deterministic `vis` matrix of checks/c32.py tests it on the code. *)
+Theorem C32_copy_unaffected_by_parent :
+  forall grow r h ta to (ops : list op),
+    length ta = length (ha h) -> length to = length (ho h) ->
+    tinv TParent ta to r h -> (forall l, nth l to TShared <> TChild) ->
+    closedP (not_parent (cf_ta (fork_conf grow r h ta to))) (not_parent (cf_to (fork_conf grow r h ta to)))
+            (cf_h (fork_conf grow r h ta to)) ->
+    okR (not_parent (cf_ta (fork_conf grow r h ta to))) (not_parent (cf_to (fork_conf grow r h ta to)))
+        (cf_c (fork_conf grow r h ta to)) ->
+    observe (cf_c (fork_conf grow r h ta to))
+            (cf_h (run_sched grow (map (fun o => (true, o)) ops) (fork_conf grow r h ta to))) =
+    observe (cf_c (fork_conf grow r h ta to)) (cf_h (fork_conf grow r h ta to)).
+Proof. exact copy_unaffected_by_parent. Qed.
+Print Assumptions C32_copy_unaffected_by_parent.
 
 (* `wait g<n>`: for every interleaving of job starts and goroutine steps, when wait
    returns it returns the status of the n-th started job (bgProcs is append-only,
